@@ -9,8 +9,10 @@ package main
 
 import (
 	"bufio"
+	"bytes"
 	"encoding/json"
 	"fmt"
+	"io"
 	"os"
 	"runtime"
 	"time"
@@ -94,4 +96,78 @@ func bytesOf(v []int) []byte {
 		r[i] = byte(c)
 	}
 	return r
+}
+
+// dribbleReader is an io.Reader double that hands out the bytes of b in pieces
+// of varying size (never more than asked for, at least one byte per call, nil
+// error with data, io.EOF only at the end with no data): every behaviour the
+// io.Reader contract allows a pipe, a network stream, a bufio boundary or a
+// decompressor to show. A decoder that takes one Read for "all the bytes it
+// asked for" mis-parses under it.
+type dribbleReader struct {
+	b []byte
+	k int
+}
+
+var dribbleSizes = []int{1, 2, 3, 5, 8, 13, 4096, 7, 16, 9, 1, 100, 4, 65536, 6}
+
+func newDribble(b []byte) *dribbleReader { return &dribbleReader{b: b} }
+
+func (d *dribbleReader) Read(p []byte) (int, error) {
+	if len(p) == 0 {
+		return 0, nil
+	}
+	if len(d.b) == 0 {
+		return 0, io.EOF
+	}
+	n := dribbleSizes[d.k%len(dribbleSizes)]
+	d.k++
+	if n > len(p) {
+		n = len(p)
+	}
+	if n > len(d.b) {
+		n = len(d.b)
+	}
+	copy(p, d.b[:n])
+	d.b = d.b[n:]
+	return n, nil
+}
+
+// dribbleRS is a seekable source with short reads. With byteReader it also has
+// ReadByte (bgzf then reads it directly, as it does a bytes.Reader); without it
+// bgzf puts a bufio.Reader in front.
+type dribbleRS struct {
+	r *bytes.Reader
+	k int
+}
+
+func (d *dribbleRS) Read(p []byte) (int, error) {
+	if len(p) == 0 {
+		return 0, nil
+	}
+	n := dribbleSizes[d.k%len(dribbleSizes)]
+	d.k++
+	if n > len(p) {
+		n = len(p)
+	}
+	return d.r.Read(p[:n])
+}
+
+func (d *dribbleRS) Seek(off int64, whence int) (int64, error) { return d.r.Seek(off, whence) }
+
+type dribbleRSB struct{ dribbleRS }
+
+func (d *dribbleRSB) ReadByte() (byte, error) { return d.r.ReadByte() }
+
+// sourceFor picks, from the length of the stream, one of three sources with the
+// same content: a bytes.Reader, a short-reading seekable flate.Reader, a
+// short-reading plain io.ReadSeeker.
+func sourceFor(b []byte) io.ReadSeeker {
+	switch len(b) % 3 {
+	case 1:
+		return &dribbleRSB{dribbleRS{r: bytes.NewReader(b)}}
+	case 2:
+		return &dribbleRS{r: bytes.NewReader(b)}
+	}
+	return bytes.NewReader(b)
 }
